@@ -1,6 +1,6 @@
 #!/bin/sh
 # usage: mut.sh <check-id> <file> <python-replace-old> <python-replace-new>   (ad-hoc mutant: replace text in /repo/<file>, run check, restore)
-[ -z "$VERIF_NOLOCK" ] && exec env VERIF_NOLOCK=1 flock -x /tmp/.verif-repo.lock "$0" "$@"
+[ -z "$VERIF_NOLOCK" ] && exec env VERIF_NOLOCK=1 VERIF_SCRATCH=/tmp/verif-scratch flock -x /tmp/.verif-repo.lock "$0" "$@"
 id=$1; f=$2
 cd /repo || exit 2
 git diff --quiet || { echo "/repo dirty"; exit 2; }
